@@ -18,10 +18,14 @@ rvars == <<R, Mods, T, k, pos, reindexed>>
 Active(tmin, tmax, t) == (tmin <= 0 \/ t >= tmin) /\ (tmax <= 0 \/ t < tmax)
 
 (* TemplateLoader.render: if ALL indices are -1 the network is re-indexed with the joining order *)
+\* @type: (Seq({tmin: Int, tmax: Int, idx: Int})) => Bool;
 AllUnindexed(rs) == \A i \in DOMAIN rs : rs[i].idx = -1
+\* @type: (Seq({tmin: Int, tmax: Int, idx: Int}), Int) => Int;
 EffIdx(rs, i) == IF AllUnindexed(rs) THEN i - 1 ELSE rs[i].idx
+\* @type: (Seq({tmin: Int, tmax: Int, idx: Int}), Set(Int), Int) => Bool;
 Overridden(rs, mods, i) == EffIdx(rs, i) \in mods
 
+\* @type: (Seq({tmin: Int, tmax: Int, idx: Int}), Set(Int), Int) => Bool;
 RInit(rs, mods, t) ==
   /\ R = rs /\ Mods = mods /\ T = t /\ pos = 1 /\ reindexed = AllUnindexed(rs)
   /\ k = [i \in DOMAIN rs |-> "zero"]                       \* realtype k[NREACTIONS] = {0.0};
